@@ -106,13 +106,16 @@ pub fn lognormal_new_post<F: Float, T>(_mu: F, sigma: F, r: &Result<T, rd::Norma
 
 /// LogNormal::from_mean_cv — documented: mean `mu > 0`, `cv >= 0`; special exception `mu = 0, cv = 0` allowed.
 /// MeanTooSmall: "mean < 0 or NaN" (Display) / "too small (samples must be positive)" (variant doc): the
-/// condition is `!(mean > 0)` except for the documented (0, 0) exception. BadVariance: cv negative, NaN or
-/// (dispersion "not finite") infinite; for cv = +inf the docs only require cv >= 0 -> unspecified.
+/// condition is `!(mean > 0)` except for the documented (0, 0) exception. BadVariance: "the standard deviation or
+/// other dispersion parameter is not finite": cv negative or NaN, or the derived sigma = sqrt(ln(1 + cv^2)) not
+/// finite. The latter happens once cv^2 overflows; the documentation gives no threshold, so cv above 1e150
+/// (f32: 1e18), i.e. well below sqrt(MAX), is treated as unspecified (Ok or BadVariance accepted).
 pub fn lognormal_from_mean_cv_post<F: Float, T>(mean: F, cv: F, r: &Result<T, rd::NormalError>) -> bool {
     let exception = mean == F::zero() && cv == F::zero();
     let mean_bad = !(mean > F::zero()) && !exception;
     let cv_bad = !(cv >= F::zero());
-    let unspecified = cv == F::infinity();
+    let big = if core::mem::size_of::<F>() == 4 { F::from(1e18).unwrap() } else { F::from(1e150).unwrap() };
+    let unspecified = cv > big;
     match r {
         Err(rd::NormalError::MeanTooSmall) => mean_bad,
         Err(rd::NormalError::BadVariance) => cv_bad || unspecified,
@@ -165,15 +168,17 @@ pub fn beta_new_post<F: Float, T>(alpha: F, beta: F, r: &Result<T, rd::BetaError
 }
 
 /// Pert (builder .with_mode) — RangeTooSmall: `max < min` or NaN bound (Display: "requirement min < max is not
-/// met"): for max == min the two texts disagree -> unspecified; infinite bounds are not discussed -> unspecified.
+/// met"): for max == min the two texts disagree -> unspecified; bounds whose difference is not a finite float
+/// (infinite bounds, or finite bounds with max - min overflowing) and an infinite shape are not discussed by the
+/// documentation -> unspecified (the constructor answers RangeTooSmall there).
 /// ModeRange: `mode < min` or `mode > max` or NaN; ShapeTooSmall: `shape < 0` or NaN.
 pub fn pert_with_mode_post<F: Float, T>(min: F, max: F, shape: F, mode: F, r: &Result<T, rd::PertError>) -> bool {
     let range_bad = max < min || min.is_nan() || max.is_nan();
-    let range_unspecified = max == min || min.is_infinite() || max.is_infinite();
+    let unspecified = max == min || !(max - min).is_finite() || shape.is_infinite();
     let mode_bad = mode < min || mode > max || mode.is_nan();
     let shape_bad = shape < F::zero() || shape.is_nan();
     match r {
-        Err(rd::PertError::RangeTooSmall) => range_bad || range_unspecified,
+        Err(rd::PertError::RangeTooSmall) => range_bad || unspecified,
         Err(rd::PertError::ModeRange) => mode_bad,
         Err(rd::PertError::ShapeTooSmall) => shape_bad,
         Ok(_) => !range_bad && !mode_bad && !shape_bad,
